@@ -352,10 +352,14 @@ impl FormattingError {
             | ErrorKind::DeprecatedAttr
             | ErrorKind::BadAttr
             | ErrorKind::LostComment => {
+                // The whitespace starts right after the last non-whitespace character, which may be
+                // wider than one byte.
                 let trailing_ws_start = self
                     .line_buffer
-                    .rfind(|c: char| !c.is_whitespace())
-                    .map(|pos| pos + 1)
+                    .char_indices()
+                    .rev()
+                    .find(|(_, c)| !c.is_whitespace())
+                    .map(|(pos, c)| pos + c.len_utf8())
                     .unwrap_or(0);
                 (
                     trailing_ws_start,
